@@ -414,7 +414,7 @@ const FK_BENIGN: &[&str] = &["short_write", "interrupted"];
 fn knobs_functional(tier: Tier) -> Knobs {
     let mut k = Knobs::functional();
     if tier == Tier::Thorough {
-        k.big_frames = true;
+        k.big_frames = 20;
         k.long_max = 400;
     }
     k
@@ -460,7 +460,7 @@ fn c02_scen(t: Tier) -> Vec<(&'static str, u64)> {
 }
 fn c02_gen(sc: &str, rng: &mut Rng, t: Tier, _i: u64) -> AnyCase {
     if sc == "fragmented" {
-        AnyCase::Frag(gen::gen_frag(rng, &FragKnobs { reject_pct: 5, boundary: false, big: t == Tier::Thorough, long_pct: 3 }))
+        AnyCase::Frag(gen::gen_frag(rng, &FragKnobs { reject_pct: 5, boundary: false, big: true, long_pct: 3 }))
     } else {
         let mut k = knobs_functional(t);
         k.invalid_pct = 4; // some histories with rejected calls, zero frames, etc.
@@ -490,6 +490,8 @@ fn c03_gen(sc: &str, rng: &mut Rng, t: Tier, _i: u64) -> AnyCase {
     let mut k = knobs_functional(t);
     k.meta_pct = 10;
     k.bframes_pct = 45;
+    // a few rejected calls: the timing of the accepted frames must not depend on them
+    k.invalid_pct = 4;
     if sc == "long-runs" {
         k.long_pct = 100;
         k.long_min = 400;
@@ -657,7 +659,7 @@ fn c05_eval(sc: &str, case: &AnyCase, st: &mut RunStats, _t: Tier) -> Vec<Violat
 // ================================================================ C06
 
 fn c06_scen(t: Tier) -> Vec<(&'static str, u64)> {
-    vec![("finalise", t.pick(400_000, 8_000_000)), ("benign-faults", t.pick(200_000, 4_000_000))]
+    vec![("finalise", t.pick(400_000, 8_000_000)), ("benign-faults", t.pick(200_000, 4_000_000)), ("failing-sink", t.pick(200_000, 4_000_000))]
 }
 fn c06_gen(sc: &str, rng: &mut Rng, t: Tier, _i: u64) -> AnyCase {
     let mut k = knobs_functional(t);
@@ -667,6 +669,27 @@ fn c06_gen(sc: &str, rng: &mut Rng, t: Tier, _i: u64) -> AnyCase {
     if sc == "benign-faults" {
         k.fault_mode = 1;
         k.fault_pct = 100;
+    }
+    if sc == "failing-sink" {
+        // a finish attempt that fails (transiently or for good), followed by further finish attempts and writes
+        k.fault_mode = 2;
+        k.fault_pct = 100;
+        k.after_finish_pct = 100;
+        k.invalid_pct = 0;
+        k.long_pct = 0;
+        let mut c = gen::gen_prog(rng, &k).0;
+        if let Some(pos) = c.ops.iter().position(|o| matches!(o, Op::Finish(_))) {
+            // make the first attempts non-consuming so that the object survives them
+            c.ops[pos] = Op::Finish(if rng.bool() { FinishKind::InPlace } else { FinishKind::InPlaceStats });
+            let extra = rng.range(1, 3);
+            for _ in 0..extra {
+                c.ops.insert(pos + 1, Op::Finish(*rng.pick(&[FinishKind::InPlace, FinishKind::InPlaceStats, FinishKind::InPlaceStats])));
+            }
+        }
+        if c.faults.at_call.iter().all(|(_, f)| f.benign()) && c.faults.die_at_byte.is_none() {
+            c.faults.at_call.push((rng.range(1, 6) as u32, Fault::ErrOnce(*rng.pick(&ERRK_ALL))));
+        }
+        return AnyCase::Prog(c);
     }
     AnyCase::Prog(gen::gen_prog(rng, &k).0)
 }
@@ -863,7 +886,7 @@ fn c10_scen(t: Tier) -> Vec<(&'static str, u64)> {
     vec![("interleavings", t.pick(1_000_000, 20_000_000))]
 }
 fn c10_gen(_sc: &str, rng: &mut Rng, t: Tier, _i: u64) -> AnyCase {
-    AnyCase::Frag(gen::gen_frag(rng, &FragKnobs { reject_pct: 12, boundary: false, big: t == Tier::Thorough, long_pct: 3 }))
+    AnyCase::Frag(gen::gen_frag(rng, &FragKnobs { reject_pct: 12, boundary: false, big: true, long_pct: 3 }))
 }
 fn c10_eval(_sc: &str, case: &AnyCase, st: &mut RunStats, _t: Tier) -> Vec<Violation> {
     crate::frag::c10_eval(as_frag(case), st)
@@ -937,7 +960,9 @@ fn c12_gen(sc: &str, rng: &mut Rng, _t: Tier, _i: u64) -> AnyCase {
             }
             if rng.chance(1, 8) {
                 // timestamps that differ by astronomically much
-                let ex = [0.0f64, 1e9, 1.0248e14, 1.03e14, 2.05e14, 1e15, 1e18, 1.7976931348623157e308];
+                // includes the band just below u64::MAX ticks (2^64/90000 s = 204963823041217.07 s), where a
+                // non-saturated timestamp is followed by saturated ones
+                let ex = [0.0f64, 1e9, 1.0248e14, 1.03e14, 2.0496382e14, 204_963_823_000_000.0, 204_963_823_041_000.0, 2.05e14, 1e15, 1e18, 1e300, 1.7976931348623157e308];
                 for op in c.ops.iter_mut() {
                     match op {
                         Op::VideoDts { pts, dts, .. } => {
@@ -951,6 +976,33 @@ fn c12_gen(sc: &str, rng: &mut Rng, _t: Tier, _i: u64) -> AnyCase {
                         Op::Video { pts, .. } | Op::Audio { pts, .. } => {
                             if rng.chance(1, 4) {
                                 *pts = F(*rng.pick(&ex));
+                            }
+                        }
+                        _ => {}
+                    }
+                }
+            }
+            if rng.chance(1, 12) {
+                // an ascending run of extreme timestamps over the video frames (each step legal for the API checks)
+                let ladder = [1.0248e14f64, 2.0496380e14, 2.04963821e14, 204_963_823_000_000.0, 204_963_823_040_000.0, 1e300, 1.7976931348623157e308];
+                let mut li = rng.usize(4);
+                for op in c.ops.iter_mut() {
+                    if li >= ladder.len() {
+                        break;
+                    }
+                    match op {
+                        Op::Video { pts, .. } => {
+                            *pts = F(ladder[li]);
+                            li += 1;
+                        }
+                        Op::VideoDts { pts, dts, .. } => {
+                            *pts = F(ladder[li]);
+                            *dts = F(ladder[li]);
+                            li += 1;
+                        }
+                        Op::Audio { pts, .. } => {
+                            if rng.bool() {
+                                *pts = F(ladder[li]);
                             }
                         }
                         _ => {}
@@ -985,7 +1037,7 @@ const FK_ALL: &[&str] = &["short_write", "interrupted", "err_once", "die", "ok_z
 // ================================================================ C13
 
 fn c13_scen(t: Tier) -> Vec<(&'static str, u64)> {
-    vec![("enumerate", t.pick(480, 12_000))]
+    vec![("enumerate", t.pick(320, 12_000))]
 }
 fn c13_gen(_sc: &str, rng: &mut Rng, _t: Tier, i: u64) -> AnyCase {
     AnyCase::Prog(crate::fault::gen_history(rng, i))
